@@ -64,6 +64,9 @@ func TestBuildingExtractorFromContext(t *testing.T) {
 		runApp("--batch 0 ../testdata/log.txt")
 	})
 	testLogFatal(t, 2, func() {
+		runApp("--batch-buffer -1 ../testdata/log.txt")
+	})
+	testLogFatal(t, 2, func() {
 		runApp("--readers 0 ../testdata/log.txt")
 	})
 	testLogFatal(t, 2, func() {
